@@ -248,9 +248,9 @@ func runC16(c *Ctx, faults bool) {
 				}
 			}
 		case 5: // listings
-			form := [][]string{{"lfs", "locks"}, {"lfs", "locks", "--verify"}, {"lfs", "locks", "--cached"}, {"lfs", "locks", "--local"}, {"lfs", "locks", "--path=" + p}}[t.Choose(5, "locks-form")]
+			form := [][]string{{"lfs", "locks"}, {"lfs", "locks", "--verify"}, {"lfs", "locks", "--cached"}, {"lfs", "locks", "--local"}, {"lfs", "locks", "--path=" + p}, {"lfs", "locks", "--verify", "--json"}, {"lfs", "locks", "--json"}}[t.Choose(7, "locks-form")]
 			_, code := w.Git(u.dir, form...)
-			if code == 0 && len(form) == 3 && form[2] == "--verify" && c.sawEvent(locks, evBefore, "listed-verify", u.name, "") {
+			if code == 0 && len(form) >= 3 && form[2] == "--verify" && c.sawEvent(locks, evBefore, "listed-verify", u.name, "") {
 				c.resetModel(locks, u)
 			}
 		case 6: // edit a file we believe we hold
